@@ -48,6 +48,8 @@ func c01StartAgents(res *vResult) []*c01Agent {
 	o = vDefaultOpts(true, vEnv.addr(3))
 	o.UEAlloc, o.UEPool, o.EndMarker = true, "10.61.0.0/16", true
 	mk("up4", o)
+	o = vDefaultOpts(true, vEnv.addr(6))
+	mk("up4-plain", o) // UP4 without end markers and without UE address allocation
 	o = vDefaultOpts(false, vEnv.addr(4))
 	o.NoDatapath = true
 	// (the per-request gRPC deadline is a package variable shared by all agents of the process: keep the generous default)
